@@ -43,6 +43,8 @@ def pool_models():
     # criteria that a lenient date parser completes from today's date, an array formula (an object of its own for the reader)
     sink['D13'] = '=COUNTIFS(B1:B3,"May")+SUMIF(B1:B3,"9:30",A1:A3)+COUNTIFS(B1:B3,"1/5")+COUNTIFS(C1:C2,">Sat")'
     sink['D14'] = {'$arr': ['D14:D14', '=SUM(A1:A3)*2']}
+    # several different whole-column areas and a back-to-front area in one formula (helpers that belong to no single cell)
+    sink['E1'] = '=SUMIF(A:A,">1",B:B)+SUM(C:C)+COUNT(B:B,A:A)+SUM(B2:A1)+COUNTBLANK(C:C)'
     base['sheets'].append({'title': 'K', 'cells': sink})
     w1 = json.loads(json.dumps(base))
     w1['sheets'][0]['cells']['A1'] = 3                   # differs in one constant
@@ -60,10 +62,12 @@ def pool_models():
     w5 = {'sheets': [{'title': 'S', 'cells': deep}, {'title': 'T', 'cells': {'A1': 10, 'B1': '=A1+S!A1', 'B2': 'text'}}]}
     # chart sheets between and behind the worksheets (they have titles, no cells)
     w6 = {'sheets': [base['sheets'][0], {'title': 'Chart1', 'chart': True}, base['sheets'][1], base['sheets'][2], {'title': 'Chart2', 'chart': True}]}
-    return [base, w1, w2, w3, w4, w5, w6]
+    # worksheets without a single cell: a translation without any method
+    w7 = {'sheets': [{'title': 'S', 'cells': {}}, {'title': 'T', 'cells': {}}]}
+    return [base, w1, w2, w3, w4, w5, w6, w7]
 
 
-ENTRIES = [None, ['K', 'D', '1'], ['K', 'D', '2'], ['S', 'C', '1'], ['S', 'C', '2'], ['S', 'D', '1'], ['T', 'B', '1'], [0, 2, 0], [1, 1, 0], ['S', 'D', '2'], ['S', 'E', '1'], ['T', 'B', '2']]
+ENTRIES = [None, ['K', 'E', '1'], ['K', 'D', '1'], ['K', 'D', '2'], ['S', 'C', '1'], ['S', 'C', '2'], ['S', 'D', '1'], ['T', 'B', '1'], [0, 2, 0], [1, 1, 0], ['S', 'D', '2'], ['S', 'E', '1'], ['T', 'B', '2']]
 
 
 def make_pool(dirpath):
@@ -139,8 +143,15 @@ def replay(history, counter=None):
                 # the same target every time, like a build step that regenerates one module
                 out = os.path.join(env.tmpdir(), 'generated_module.py')
 
-                def w():
-                    parser.write_translation(out)
+                def w(bare=n % 2 == 0):
+                    # every second time the target is named without a directory (relative to the current one), like `parser.write_translation('generated_module.py')`
+                    here = os.getcwd()
+                    try:
+                        if bare:
+                            os.chdir(os.path.dirname(out))
+                        parser.write_translation(os.path.basename(out) if bare else out)
+                    finally:
+                        os.chdir(here)
                     with open(out, encoding='utf-8') as f:
                         return f.read()
                 got = outcome_of(w)
@@ -370,7 +381,7 @@ def run_child(job, hashseed):
 
 def matrix_items():
     items = []
-    for wi in range(7):
+    for wi in range(8):
         for entry in ENTRIES[:8] if wi != 5 else [None, ['S', 'C', '1'], ['S', 'B', '399'], ['T', 'B', '1']]:
             for safety in (False, True) if wi == 3 else (False,):
                 items.append([wi, entry, safety])
@@ -420,7 +431,7 @@ def build_machine(rec):
             super().__init__()
             self.steps = []
 
-        @rule(i=st.integers(0, 6))
+        @rule(i=st.integers(0, 7))
         def set_path(self, i):
             self.steps.append(['path', i])
 
